@@ -149,6 +149,16 @@ def r181_182(ctx):
             if not ok:
                 ctx.finding('R18.1', f'{c}.set_value:no-store', ci, sv, 'set_value neither stores the value nor refuses', where=f'{c}.set_value')
             continue
+        # an accepted value is stored: no path from the entry to a normal exit avoids every store (`if old == value: return` in front of the
+        # store keeps the old object -- another type, unit or sign of zero -- although set_value accepted the new one)
+        snodes = [g.node_for(st) for st in stores]
+        if all(x is not None for x in snodes):
+            skipped = g.reaches(g.entry, g.exit, avoid=snodes, labels_excluded=('exc', 'raise', 'reraise'))
+            ctx.ob('R18.1', f'{c}.set_value:stored-on-every-accepting-path', not skipped, sample=f'{c}.set_value: a normal exit without a store of {V} is reachable: {skipped}')
+            if skipped:
+                ctx.finding('R18.1', f'{c}.set_value:accepted-but-not-stored', ci, stores[0],
+                            f'{c}.set_value can return normally without storing the value (a path around `{short(stores[0])}`): a value that was accepted is not '
+                            f'the value get_value() returns afterwards (an equal value of another type, unit or sign of zero keeps the old object)', where=f'{c}.set_value')
         setter_atoms = set()
         for st in stores:
             node = g.node_for(st)
